@@ -193,7 +193,7 @@ def r1b(ctx):
         end = f"len({line})"
         for _ in range(nsub):
             end = f"({end} Sub 1)"
-        exp = [("current_physical_line.__init__", ()), ("cleaner.process", (f"SLICE({line}, 0, {end})",))]
+        exp = [("current_physical_line.__init__", ()), ("cleaner.process", (f"SLICE({line}, {end})",))]
         i1 = inbc[0] if inbc else None
         lnl = (not continued) and (i1 is False)
         if lnl:
